@@ -1,0 +1,10 @@
+//go:build !verif
+
+package receiver
+
+import "github.com/PowerDNS/lightningstream/snapshot"
+
+// verifPickSnapshot is only used by the `verif` build.
+func verifPickSnapshot(m map[string]snapshot.Update) (string, snapshot.Update) {
+	panic("not reached without the verif build tag")
+}
